@@ -151,7 +151,10 @@ func (t *TxController) Rollback(ctx context.Context) error {
 	}
 	t.finalized = true
 	verifIndex := 0
-	for _, fn := range t.onRollback {
+	// Undo in reverse registration order: a later hook may have renamed away a
+	// file that an earlier hook of the same transaction published.
+	for i := len(t.onRollback) - 1; i >= 0; i-- {
+		fn := t.onRollback[i]
 		_ = VerifPoint(ctx, "tx.rollback", verifIndex)
 		verifIndex++
 		if hookErr := fn(ctx); hookErr != nil && err == nil {
